@@ -1571,7 +1571,7 @@ package bpmn
 // Triggering a start event starts the completion monitor with the first one only (sync.Once): the monitor takes the
 // completion lock, so a second monitor would wait for the first for ever.
 //@ func (*Process).StartWith
-//@   prop C02 C18
+//@   prop C02 C18 C07
 //@   flag entrylocks
 //@   flag lockeffect p.complete
 //@   requires [completion-lock-free-when-the-monitor-is-started] !oncedone(mu(p.monitorOnce)) ==> held(mu(p.complete)) == 0
@@ -1580,6 +1580,9 @@ package bpmn
 //@             count(Spawn, code("(*Process).ceaseFlowMonitor$1")) == old(count(Spawn, code("(*Process).ceaseFlowMonitor$1"))) && held(mu(p.complete)) == old(held(mu(p.complete)))
 //@   ensures [once-a-monitor-always-a-monitor] old(oncedone(mu(p.monitorOnce))) ==> oncedone(mu(p.monitorOnce))
 //@   ensures [no-monitor-no-lock] !oncedone(mu(p.monitorOnce)) ==> noMonitorStarted() && held(mu(p.complete)) == old(held(mu(p.complete)))
+//@   ensures [the-monitor-is-a-registered-sender-of-the-tracer-on-which-it-announces-the-end-of-the-flow @C07]
+//@             count(Spawn, code("(*Process).ceaseFlowMonitor$1")) > old(count(Spawn, code("(*Process).ceaseFlowMonitor$1"))) ==>
+//@             lastval(Call, code("tracing|ITracer.RegisterSender")) == old(p.subTracer)
 //@   ensures startFrame()
 
 // Starting every start event.
@@ -1616,6 +1619,7 @@ package bpmn
 //@   ensures [returns-holding-the-completion-lock] held(mu(p.complete)) == 2
 //@   ensures [monitor-is-the-literal] fncode(result) == code("(*Process).ceaseFlowMonitor$1")
 //@   ensures [only-subscribes] startFrame() && unchangedKind(Spawn) && unchangedKind(Trace) && unchangedKind(Send)
+//@   ensures [registers-no-sender] count(Call, code("tracing|ITracer.RegisterSender")) == old(count(Call, code("tracing|ITracer.RegisterSender")))
 
 // The monitor: the cease-flow trace is sent at most once, as its last trace, only after every start event was seen
 // firing and after the wait for all tokens returned; the completion lock is released on every exit.
